@@ -5,7 +5,6 @@ import numpy as np
 from .. import core, gen
 
 ID = 'C03'
-FOUNDATIONS = ['harness.foundation.concurrent', 'harness.foundation.soak']   # the property's own functions under concurrent calls (validation; proofs in C12)
 LEVEL = 'proof'
 RULE = ('corpus; exhaustive scope: all 65536 boolean 4x4 images x {4,8}-neighbourhoods, all boolean images of the '
         'smaller shapes up to 4x4, all 512 3x3 elements x all boolean images up to 3x3 (thorough in full, quick a '
